@@ -78,6 +78,9 @@ TRUSTED = [
     "n(z) of measured CorrFuncs is compared with the exact model values in squared form with the first-order bound "
     "4 (2|a| e_a + e_a^2 + a^2 (e_s/|s| + e_p/|p|) + 4 * 2^-48 a^2), e = 2^-48 * forward scale of the estimator; python-side bin membership "
     "(c04_meas.gen_member) shapes and labels generated inputs and words the reports, never a verdict",
+    "container algebra: an index expression (int, slice, list, integer array, mask, iteration) is resolved to positions by numpy's own indexing "
+    "of arange(n); the expression handed to Coq is built from the generated tree, never from what the implementation returned; the python-side "
+    "comparison of the roles held after every operation (c04-algebra-roles-changed:<op>) uses only getattr(cf, role) is None",
 ]
 ASSUMPTIONS = [
     "where an exact denominator is zero (or the radicand is not positive) the documented formula is undefined: the "
